@@ -31,12 +31,13 @@ def shard(name, workers=3, **kw):
 def plan(tier):
     if tier == "quick":
         return [
-            shard("flips", 4, Keys=q(["r1", "nm2", "k1", "short"]), MutSel=q(["flip"])),
+            shard("flips", 4, Keys=q(["r1", "nm2", "short"]), MutSel=q(["flip"])),
             shard("flipcraft", 4, Keys=q(["r2"]), Entries=q(["sign_nil"]), Crafts=q(["r1", "rshort", "s1", "sshort", "rnm1", "snm1"]), MutSel=q(["flip"])),
+            shard("craftint", 4, Keys=q(["r1"]), Entries=q(["sign_nil", "legacy_sign"]), Crafts=q(["r1", "rshort", "s1", "sshort", "rnm1", "snm1"]), MutSel=q(["int", "enc"])),
             shard("struct_a", 4, Keys=q(["k1", "nm2", "short", "r3"]), Entries=q(["sign_gm"]), UidLens=S([16]), MsgLens=S([64]), MutSel=q(M_STRUCT)),
             shard("struct_b", 4, Keys=q(["k2", "r1", "r2", "r4"]), Entries=q(["signwithsm2"]), UidLens=S([0]), MsgLens=S([33]), MutSel=q(M_STRUCT)),
-            shard("combos_a", 4, Keys=q(["k1", "r3", "k2", "r4"]), Entries=q(["signasn1_gm", "legacy_signwithsm2"]), UidLens=S([0, 1, 16]), MsgLens=S([0, 1, 64, 1024])),
-            shard("combos_b", 4, Keys=q(["nm2", "r1", "r2", "short"]), Entries=q(["sign_gm", "sign_nil"]), UidLens=S([0, 1, 16]), MsgLens=S([0, 1, 64, 1024])),
+            shard("combos_a", 4, Keys=q(["k1", "r3", "k2"]), Entries=q(["signasn1_gm", "legacy_signwithsm2"]), UidLens=S([0, 1, 16]), MsgLens=S([0, 1, 64, 1024])),
+            shard("combos_b", 4, Keys=q(["nm2", "r1", "short"]), Entries=q(["sign_gm", "sign_nil"]), UidLens=S([0, 1, 16]), MsgLens=S([0, 1, 64, 1024])),
             shard("ctx", 4, Keys=q(["r1"]), Entries=q(["signasn1_gm"]), UidLens=S([0, 16]), MsgLens=S([1, 64, 1024]), MutSel=q(["ctx"])),
             shard("entries", 4, Keys=q(["r1"]), Routes=q(R_ALL), Entries=q(E_ALL), UidLens=S([0, 16]), MsgLens=S([32]), Skews=S([0, 1])),
             shard("hist", 4, Keys=q(["r2", "nm2"]), Routes=q(["struct", "sec1"]), Entries=q(["sign_gm", "sign_nil", "legacy_sign"]), MsgLens=S([16]), Skews=S([1]), MaxSigns=3),
@@ -49,16 +50,17 @@ def plan(tier):
     out = []
     for i in range(4):
         ks = keys[i::4]
-        out.append(shard("flips_%d" % i, 4, Keys=q(ks), UidLens=S([0, 16]), MsgLens=S([1, 64]), MutSel=q(["flip"]), FlipMasks=S([1, 2, 4, 8, 16, 32, 64, 128])))
+        out.append(shard("flips_%d" % i, 4, Keys=q(ks), UidLens=S([0, 16]), MsgLens=S([1, 64]), MutSel=q(["flip"]), FlipMasks=S([1, 4, 32, 128])))
         out.append(shard("struct_%d" % i, 4, Keys=q(ks), Entries=q(["sign_gm", "legacy_signwithsm2"]), UidLens=S([0, 16]), MsgLens=S([0, 64]), MutSel=q(M_STRUCT), NForge=8))
         out.append(shard("combos_%d" % i, 4, Keys=q(ks), Entries=q(["signasn1_gm", "sign_nil"]), UidLens=S([0, 1, 16, 64]), MsgLens=S([0, 1, 64, 1024]),
                          MutSel=q(["none", "ctx"])))
     out += [
         shard("flipcraft", 4, Keys=q(["r2", "k1", "nm2"]), Entries=q(["sign_nil", "legacy_sign"]), Crafts=q(["r1", "rshort", "s1", "sshort", "rnm1", "snm1"]), MutSel=q(["flip"])),
-        shard("entries", 4, Keys=q(["r1", "nm2", "k1"]), Routes=q(R_ALL), Entries=q(E_ALL), UidLens=S([0, 16]), MsgLens=S([32]), Skews=S([0, 1]), MutSel=q(["none", "int"])),
+        shard("entries", 4, Keys=q(["r1", "nm2", "k1"]), Routes=q(R_ALL), Entries=q(E_ALL), UidLens=S([0, 16]), MsgLens=S([32]), Skews=S([0, 1])),
         shard("hist_a", 4, Keys=q(["r2", "nm2", "k1"]), Routes=q(["struct", "sec1"]), Entries=q(["sign_gm", "sign_nil", "legacy_sign", "signwithsm2"]), MsgLens=S([16]), Skews=S([1]), MaxSigns=3),
         shard("hist_b", 4, Keys=q(["r3"]), Entries=q(E_ALL), MsgLens=S([5]), Skews=S([0, 1]), MaxSigns=2),
         shard("crafts", 4, Keys=q(["r1", "k2", "nm2", "short"]), Entries=q(E_DIG), Crafts=q(CRAFTS), Skews=S([0, 1]), MsgLens=S([8]), MutSel=q(["none", "enc"])),
+        shard("craftint", 4, Keys=q(["r1", "k1", "nm2"]), Entries=q(["sign_nil", "legacy_sign"]), Crafts=q(["r1", "rshort", "s1", "sshort", "rnm1", "snm1"]), MutSel=q(["int", "enc", "len", "tag"])),
         shard("bad", 3, Keys=q(BAD), Routes=q(["struct", "fromec", "sec1"]), Entries=q(E_ALL), MaxSigns=3),
         shard("uid8191", 2, Keys=q(["r4"]), Entries=q(["signwithsm2"]), UidLens=S([8191]), MsgLens=S([1]), MutSel=q(["none", "ctx"])),
     ]
@@ -122,7 +124,7 @@ def run(ctx):
     jobs.append(dict(module="Sm2KeyImpl", name="Sm2KeyImpl_pinned", constants=dict(Fixed="FALSE"), invariants=("NoPanic", "BadKeyAlwaysErr", "RefinesObj"),
                      workers=1, timeout=300, heap="1g", allow_fail=True))
     # heavy shards first; the JVMs share the machine
-    res = ctx.tlc_many(jobs, parallel=6 if ctx.tier == "quick" else 5)
+    res = ctx.tlc_many(jobs, parallel=6)
     pinned = res[-1]
     ctx.tlc_runs.remove(pinned)
     if not pinned["ok"] and "Invariant NoPanic is violated" not in pinned["out_tail"]:
@@ -164,10 +166,21 @@ def run(ctx):
     relational_fallback(ctx)
 
     # code -> spec: recorded histories (the library draws its own nonces), validated relationally by TLC
-    nrec = 70 if ctx.tier == "quick" else 500
+    nrec = 50 if ctx.tier == "quick" else 500
     for i, c in enumerate((cfgs.K_EC[0], cfgs.K_EC[3])):
         ev = ctx.record("sm2dsa", nrec, seed=ctx.seed + 7919 * i, tags=c["tags"], env=c["env"], name="sm2dsa-" + c["label"])
-        ctx.validate("Trace_Sm2Dsa", ev, "sm2dsa", shards=6 if ctx.tier == "quick" else 8, label=c["label"], guard=(i == 0), timeout=2400)
+        if ev is None:
+            continue
+        # a shard stops at its first rejected history: histories in which the library panicked (the trace
+        # specification has no such event, TLC rejects them) are validated apart so that they do not hide the others
+        panicked = set(json.loads(l)["t"] for l in core._lines(ev) if json.loads(l).get("panic"))
+        parts = {"": ev + ".clean", "-panicked": ev + ".panicked"}
+        with open(parts[""], "w") as fc, open(parts["-panicked"], "w") as fp:
+            for l in core._lines(ev):
+                (fp if json.loads(l)["t"] in panicked else fc).write(l)
+        ctx.validate("Trace_Sm2Dsa", parts[""], "sm2dsa", shards=6 if ctx.tier == "quick" else 8, label=c["label"], guard=(i == 0), timeout=2400)
+        if panicked:
+            ctx.validate("Trace_Sm2Dsa", parts["-panicked"], "sm2dsa", shards=min(4, len(panicked)), label=c["label"] + "-panicked", guard=False, timeout=2400)
 
     # what the failures are, by class (evidence only)
     classes = {}
